@@ -41,3 +41,27 @@ Theorem C09_update_rejection_surfaces :
     lu e (match lookup key (t_data t) with Some i => i | None => k end) vals names = Err err ->
     t_update lm lu c t k e None names vals = (t, WErr err).
 Proof. exact update_rejection_surfaces. Qed.
+
+(* totality: for EVERY byte string (no length bound needed) both parsers return a tree and an error count - the fuel
+   of the model's parser, 8 * length + 16, is never exhausted; the measure is the input not yet consumed *)
+From Minidyn Require Import Proofs.ParserFuel.
+
+Theorem C09_condition_parser_total : forall s, exists e k, parse_cond s = Some (e, k).
+Proof. exact parse_cond_total. Qed.
+
+Theorem C09_update_parser_total : forall s, exists e k, parse_upd s = Some (e, k).
+Proof. exact parse_upd_total. Qed.
+
+(* hence Match and Update terminate on every expression, item and bindings with a verdict / an item, or with a
+   syntax or unsupported error - never out of fuel, never a runtime fault of the model *)
+Theorem C09_match_total :
+  forall expr it vals names,
+    (exists b, lang_match expr it vals names = Ok b) \/ lang_match expr it vals names = Err Syntax \/
+    lang_match expr it vals names = Err Unsupported.
+Proof. exact lang_match_total. Qed.
+
+Theorem C09_update_total :
+  forall expr it vals names,
+    (exists it', lang_update expr it vals names = Ok it') \/ lang_update expr it vals names = Err Syntax \/
+    lang_update expr it vals names = Err Unsupported.
+Proof. exact lang_update_total. Qed.
